@@ -182,6 +182,46 @@ pub fn sites(tier: Tier) -> Vec<Site> {
                 }
             }));
     }
+    // the public conversion helpers themselves (insim_core::duration), which every time field but SMALL's goes
+    // through: the complete wire domain of each of the four instantiations in use (16/32 bits x 1 ms / 10 ms;
+    // quick: every 4099th 32-bit value), both directions, plus the three durations that must floor to w
+    {
+        use insim::core::binrw::Endian;
+        use insim::core::duration::{binrw_parse_duration, binrw_write_duration};
+        fn one<const BITS: u32, const SCALE: u64>(w: u64, i: u64, acc: &mut crate::report::Acc) {
+            acc.eval();
+            let bytes: Vec<u8> = if BITS == 16 { (w as u16).to_le_bytes().to_vec() } else { (w as u32).to_le_bytes().to_vec() };
+            let want = Duration::from_millis(w * SCALE);
+            let bad = |acc: &mut crate::report::Acc, what: &str, detail: String| {
+                acc.violate(i, format!("C15|helper-u{BITS}-x{SCALE}|{what}"), detail, json!({"site": "helpers", "index": i, "wire": w, "bits": BITS, "scale": SCALE}));
+            };
+            let mut c = std::io::Cursor::new(&bytes[..]);
+            let got = if BITS == 16 {
+                if SCALE == 1 { binrw_parse_duration::<u16, 1, _>(&mut c, Endian::Little, ()) } else { binrw_parse_duration::<u16, 10, _>(&mut c, Endian::Little, ()) }
+            } else if SCALE == 1 { binrw_parse_duration::<u32, 1, _>(&mut c, Endian::Little, ()) } else { binrw_parse_duration::<u32, 10, _>(&mut c, Endian::Little, ()) };
+            match got {
+                Ok(d) if d == want => {},
+                other => { bad(acc, "wire-value-meaning", format!("wire {w} means {want:?}, read as {other:?}")); return; },
+            }
+            for (k, dur) in [want, want + Duration::from_micros(1), want + Duration::from_millis(SCALE) - Duration::from_micros(1)].into_iter().enumerate() {
+                let mut o = std::io::Cursor::new(Vec::with_capacity(4));
+                let r = if BITS == 16 {
+                    if SCALE == 1 { binrw_write_duration::<u16, 1, _>(&dur, &mut o, Endian::Little, ()) } else { binrw_write_duration::<u16, 10, _>(&dur, &mut o, Endian::Little, ()) }
+                } else if SCALE == 1 { binrw_write_duration::<u32, 1, _>(&dur, &mut o, Endian::Little, ()) } else { binrw_write_duration::<u32, 10, _>(&dur, &mut o, Endian::Little, ()) };
+                match r {
+                    Ok(()) if o.get_ref()[..] == bytes[..] => {},
+                    other => { bad(acc, if k == 0 { "wire-typed-wire" } else { "not-rounded-down" }, format!("{dur:?} is written as {} ({other:?}), wire value {w} expected", hex(o.get_ref()))); return; },
+                }
+            }
+            acc.nontrivial();
+        }
+        let step: u64 = if tier == Tier::Thorough { 1 } else { 4099 };
+        let n32 = (1u64 << 32) / step + 1;
+        sites.push(Site::new("helpers-16", 65536 * 2, "binrw_parse_duration / binrw_write_duration::<u16, 1 | 10>: all 65536 wire values, read, written back, floor of the two neighbouring durations",
+            |i, acc| { let w = i / 2; if i % 2 == 0 { one::<16, 1>(w, i, acc) } else { one::<16, 10>(w, i, acc) } }));
+        sites.push(Site::new("helpers-32", n32 * 2, "binrw_parse_duration / binrw_write_duration::<u32, 1 | 10>: every wire value (thorough: all 2^32; quick: every 4099th and the last), read, written back, floor of the two neighbouring durations",
+            move |i, acc| { let w = ((i / 2) * step).min(u32::MAX as u64); if i % 2 == 0 { one::<32, 1>(w, i, acc) } else { one::<32, 10>(w, i, acc) } }));
+    }
     // encode side: rounding down, and refusal beyond the range
     {
         let mut cases: Vec<(usize, u64, u8)> = vec![];
